@@ -30,7 +30,12 @@ PARTIAL = ['C10_dollars_closing_first_partial, C10_dollars_read_math_partial, C1
            'runs, inline $..$ and display $$..$$ formulas with text bodies, any size) satisfying ok_doc2: one math node per formula, '
            'display flag and delimiters as written ($a$$b$ = two inline formulas and $$a$$ = one display formula are instances, '
            'C10_dollars_two_inline_instance / C10_dollars_one_display_instance). Partial w.r.t. DESIGN only in that formula bodies '
-           'are text only (for the recorded modes of arbitrary bodies: C10_modes_grammar2, every document of the extended grammar).']
+           'are text only (for the recorded modes of arbitrary bodies: C10_modes_grammar2, every document of the extended grammar; '
+           'C10_modes_grammar3 / C10_modes_grammar3_tree (composition with C02_parse_unparse3_partial, Proofs/Compose3Modes.v): every '
+           'document of the THIRD grammar - the extended one plus paragraph-like whitespace runs in a context without the paragraph '
+           'specials, a paragraph break as single-token argument, groups written directly in a delimited argument - every context, '
+           'strict and tolerant: the parse succeeds, returns tree_of3 d, and every node records the implied mode. These grammar '
+           'theorems are not partial in themselves (C10_modes holds for ALL strings); the grammars only say WHICH tree it is).']
 REFUTED = []
 CASE_TIMEOUT = 10.0
 case_from_desc = PC.case_from_desc
